@@ -50,22 +50,30 @@ class C02(Prop):
     id = "C02"
     anchored = ["src/pewlib/io/agilent.py"]
     cases = {"quick": 300, "thorough": 30000}
-    rule = ("synthetic .b batches: 1..5 lines, 2..6 scans, 1..4 masses, MS / MS with XAddition / MS_MS, every subset of "
-            "{BatchLog.xml, BatchLog.csv, AcqMethod.xml, MSTS_XAddition.xml}, data-file names of mixed digit widths and prefixes, "
-            "shuffled directory listing, logs with Fail / repeated Pass / unlogged directories / logged-but-missing files, four path "
-            "styles, per-line CSV present/missing, bit-pattern or count values; non-trivial = the case reaches at least one of the "
-            "named order/size/metadata classes; distinct by canonical case hash")
+    rule = ("synthetic .b batches written with the fixture layouts: 1..5 lines, 2..6 scans, 1..4 masses, MS / MS with XAddition / MS_MS "
+            "(incl. product order != precursor order), every subset of {BatchLog.xml, BatchLog.csv, AcqMethod.xml, MSTS_XAddition.xml}, "
+            "data-file names of mixed digit widths, prefixes and .d/.D, shuffled directory listing (iterdir patched), logs with Fail/Abort/-/Skip, "
+            "repeated Pass entries, unlogged directories, logged-but-missing files, four path styles, XML entries without file name, plain files "
+            "that look like data directories, per-line CSV all/some/none (CRLF or LF, 4 footer shapes, 0..3 decimals), unreadable binaries "
+            "(CSV fallback of load), bit-pattern values (NaN payloads, infinities, -0.0) or count values (exact rationals for counts/second); "
+            "96 targeted small batches (all 16 metadata subsets x sizes 1/2) + the minimal inputs of the two repaired defects; "
+            "non-trivial = reaches a named size/order/log/metadata/CSV boundary class; distinct by canonical case hash")
     trusted = [
         "xml.etree.ElementTree, np.genfromtxt (field splitting, name validation with deletechars='', correctly rounded decimal->float64), "
-        "np.frombuffer with packed structured dtypes, np.stack, rfn.drop_fields/rename_fields behave as documented",
-        "the synthetic writer harness/gen_agilent.py reproduces the Agilent layouts (validated against the byte layout of the /repo fixtures: "
-        "MSScan.bin 68-byte header, record start at byte 88, 136-byte records, SpectrumOffset = 68 + r*ByteCount; MSProfile.bin 68-byte header, 28*k-byte records)",
-        "float64 division and multiplication are correctly rounded (counts/acctime and ScanTime*60 are compared with the rounded exact quotient/product)",
+        "np.frombuffer with packed structured dtypes, np.stack, rfn.drop_fields/rename_fields, pathlib.Path.suffix/with_suffix behave as documented",
+        "the synthetic writer harness/gen_agilent.py reproduces the Agilent layouts (restated from the bytes of the /repo fixtures: "
+        "MSScan.bin 68-byte header, record start read from byte 88, 136-byte records, SpectrumOffset = 68 + r*ByteCount, ByteCount = 28*k; "
+        "MSProfile.bin 68-byte header, 28*k-byte records ID/Analog/Analog2/Digital); Analog2/Digital and the MSScan index block hold decoys",
+        "float64 division and multiplication are correctly rounded (counts/acctime and ScanTime*60 are compared bit-exactly with the rounded exact quotient/product)",
+        "Python's list.sort/sorted are stable sorts (modelled by List.mergeSort); str.rfind, str.isdigit on ASCII names",
     ]
     assumptions = [
-        "data-file names contain an ASCII digit, no separator and no comma; CSV fields are plain decimals; element names are distinct",
-        "every data file of a batch carries the same mass table",
-        "scantime is compared to 0.5e-4 (the code rounds to 4 places) and only when no line's CSV is missing (DESIGN 5.2 boundary decision)",
+        "data-file names contain an ASCII digit, no separator and no comma, and carry pairwise distinct numbers (ties are listing-order dependent and not generated)",
+        "result texts are at most 5 characters and never merely start with 'Pass' (the U4 column of the CSV reader truncates)",
+        "CSV fields are plain decimals; element names are distinct; every data file of a batch carries the same mass table and the same number of scans",
+        "exception classes are not compared (raised vs returned only)",
+        "scantime is compared to within 0.5e-4 of the exact mean interval (the code rounds to 4 places) and, for the CSV import, only when no "
+        "line's CSV is missing (DESIGN 5.2 boundary decision; counted as feature 'scantime-not-compared:blank-line')",
     ]
 
     # ------------------------------------------------------------------ generator
